@@ -170,7 +170,7 @@ def run(ctx):
     pop_b = derived_population(ctx)
     if ctx.tier == "thorough":
         pass
-    ctx.floor("C07.B", "derived darling impl fns in tests/examples", len(pop_b), 250)
+    ctx.floor("C07.B", "derived darling impl fns (and their closures) in tests/examples", len(pop_b), 250)
     nb_sites = 0
     for b in pop_b:
         for blk, kind, detail in scan.panic_sites(b):
